@@ -58,7 +58,7 @@ impl Property for C06 {
         cfg.exclude_label_on_cond_region = known.has("desugar-difflabel-cond-region");
         let body = { let mut g = BodyGen::new(tape, &spec, cfg); g.body() };
         let text = format!("{{\n{}}}\n", print_body(&body));
-        let vals: Vec<Vec<(i32, crate::model::ops::Val)>> = (0..8).map(|_| gen_valuation(tape, &spec)).collect();
+        let vals: Vec<Vec<(i32, crate::model::ops::Val)>> = gen_valuations(tape, &spec, 8);
         let mut labelled_cond_region = false;
         visit_stmts(&body, 0, &mut |s, _| if s.diff.is_some() && matches!(s.kind, Stmt::While { .. } | Stmt::If { .. }) { labelled_cond_region = true; });
         let mut has_break = false;
